@@ -170,6 +170,20 @@ def check_tree(data: dict, lab: Labels) -> None:
     for kind in {p["origin"][0] for p in snap}:
         lab.tag("origin-" + kind)
     lab.tag_if(ex.n_shared > 0, "shared")
+    pre = data.get("pre_dump", 0) % 4
+    if pre:
+        # an earlier dump of the same tree in another flavour (its result is not used) must not
+        # change what the round trip below returns
+        from pyoak.node import ASTSerializationDialects
+        from pyoak.serialize import SerializationOption
+
+        lab.tag(f"pre-dump-{pre}")
+        if pre == 1:
+            root.as_dict(serialization_options={"ast_serialize_dialect": ASTSerializationDialects.AST_TEST})
+        elif pre == 2:
+            root.to_json(serialization_options={SerializationOption.SKIP_CLASS: True, SerializationOption.SORT_KEYS: True})
+        else:
+            root.to_msgpck(serialization_options={"ast_serialize_dialect": ASTSerializationDialects.AST_EXPLORER})
     payload = _ser(root, fmt, sopts)
     ser_sources = Source.all_as_dict() if opt == "index" else None
 
@@ -341,6 +355,7 @@ def st_case(ctx: Ctx):
             "fresh": st.sampled_from([False] * 5 + [True]),
             "reload_sources": st.booleans(),
             "fresh_sources": st.booleans(),
+            "pre_dump": st.sampled_from([0, 0, 0, 1, 1, 2, 3]),
         }
     )
 
